@@ -54,6 +54,31 @@ type LedgerE struct {
 	Backend string   `json:"backend"`
 }
 
+type AssumedOb struct {
+	Obligation string `json:"obligation"`
+	Reason     string `json:"reason"`
+}
+
+// loadAssumed reads the obligations that are accepted as assumptions (never counted as discharged), with their reasons.
+func loadAssumed() map[string]string {
+	out := map[string]string{}
+	b, err := os.ReadFile(filepath.Join(verifDir, "assumed-obligations.jsonl"))
+	if err != nil {
+		return out
+	}
+	for _, l := range strings.Split(string(b), "\n") {
+		l = strings.TrimSpace(l)
+		if l == "" || strings.HasPrefix(l, "#") {
+			continue
+		}
+		var a AssumedOb
+		if json.Unmarshal([]byte(l), &a) == nil {
+			out[a.Obligation] = a.Reason
+		}
+	}
+	return out
+}
+
 func loadLedger(id string) *Ledger {
 	b, err := os.ReadFile(filepath.Join(verifDir, "ledger", id+".json"))
 	if err != nil {
@@ -90,7 +115,7 @@ func cone(w *World, id string) []*FuncInfo {
 		if fi.Contract == nil {
 			continue
 		}
-		tagged := false
+		tagged := contains(fi.Contract.Props, id)
 		for _, cl := range fi.Contract.Ensures {
 			for _, t := range cl.Tags {
 				if t == id {
@@ -177,6 +202,7 @@ type propRun struct {
 	bounded     []map[string]any
 	extraViol   []violation
 	notes       []string
+	assumedSites []string
 }
 
 type violation struct {
@@ -271,12 +297,13 @@ func (run *propRun) report(id, tier string, seed int, start time.Time, update bo
 	isKnown := func(key string) *Finding {
 		for i := range findings {
 			f := &findings[i]
-			if f.Kind == "finding" && f.Property == id && f.Obligation == key {
+			if f.Kind == "finding" && f.Obligation == key {
 				return f
 			}
 		}
 		return nil
 	}
+	assumedObs := loadAssumed()
 	present := map[string]bool{}
 	for _, a := range run.aggs {
 		present[a.Key] = true
@@ -295,6 +322,10 @@ func (run *propRun) report(id, tier string, seed int, start time.Time, update bo
 		}
 		if f := isKnown(a.Key); f != nil {
 			known[f.Obligation+" — "+f.What] = true
+			continue
+		}
+		if why, ok := assumedObs[a.Key]; ok {
+			run.assumedSites = append(run.assumedSites, a.Key+": "+why)
 			continue
 		}
 		inLedger := ledger == nil || func() bool { _, ok := ledger.Keys[a.Key]; return ok }()
@@ -456,6 +487,9 @@ func (run *propRun) writeEvidence(id, tier string, seed int, start time.Time, to
 	for _, a := range axioms {
 		tb = append(tb, "spec axiom: "+a)
 	}
+	for _, a := range run.assumedSites {
+		tb = append(tb, "obligation accepted as an assumption (not discharged): "+a)
+	}
 	level := "proof"
 	expl := ""
 	if discharged != total || len(run.bounded) > 0 || len(run.unsupported) > 0 {
@@ -470,6 +504,7 @@ func (run *propRun) writeEvidence(id, tier string, seed int, start time.Time, to
 		"functions_under_contract": fns, "samples": samples,
 		"distinct_obligation_keys": len(run.aggs) + len(run.ownObs),
 		"known_findings_seen":      known, "unsupported": run.unsupported, "bounded": run.bounded, "notes": append(run.notes, run.w.Notes...),
+		"assumed_obligations": run.assumedSites,
 		"spec_axioms_used": len(axioms), "lemmas_proved_and_used": keysOf(run.lemmasUsed),
 	}
 	if expl != "" {
